@@ -165,6 +165,21 @@ pub async fn run(cx: &mut Ctx) {
 
                 // ---- C05: twin comparison
                 if let Some(mem) = &mem {
+                    // reach: which storage-order-dependent operators the on-disk plan uses
+                    if let (Stmt::Raw(_), true) = (s, out.is_ok()) {
+                        if let Outcome::Ok(rows) = db.exec(&format!("EXPLAIN {sql}")).await {
+                            let plan = format!("{rows:?}");
+                            for (needle, probe) in [
+                                ("MergeJoin", "plan-merge-join"),
+                                ("SortAgg", "plan-sort-agg"),
+                                ("HashJoin", "plan-hash-join"),
+                            ] {
+                                if plan.contains(needle) {
+                                    cx.probe(probe);
+                                }
+                            }
+                        }
+                    }
                     let mo = mem.exec(&sql).await;
                     cx.log.push(format!("    mem => {}", mo.brief()));
                     cx.stats.evaluations += 1;
